@@ -576,8 +576,12 @@ func TestC06_Errors(t *testing.T) {
 		case 4:
 			name = "badSizeOrThreshold"
 			bn := []int{-1, 0, 1, 255, 256, 1000}[g.Pick("bn", 6)]
-			if a, b, c, err := crypto.BLSThresholdKeyGen(bn, 1, make([]byte, 32)); a != nil || b != nil || c != nil || !crypto.IsInvalidInputsError(err) {
-				g.Fatalf("BLSThresholdKeyGen(size %d) = %v", bn, err)
+			// the sizes next to the documented range first (a size check that lets 256 or more through would loop on the
+			// byte-sized participant index instead of returning: the adjacent sizes decide before that can happen)
+			for _, sz := range []int{255, 1, 0, bn} {
+				if a, b, c, err := crypto.BLSThresholdKeyGen(sz, 1, make([]byte, 32)); a != nil || b != nil || c != nil || !crypto.IsInvalidInputsError(err) {
+					g.Fatalf("BLSThresholdKeyGen(size %d) = %v", sz, err)
+				}
 			}
 			bt := []int{-1, 0, n, n + 1}[g.Pick("bt", 4)]
 			if a, _, _, err := crypto.BLSThresholdKeyGen(n, bt, make([]byte, 32)); a != nil || !crypto.IsInvalidInputsError(err) {
